@@ -40,7 +40,9 @@ def check(ctx):
     pc.spectrum(ctx, N)
     dispatch(ctx)
     shapes(ctx)
-    from .C04 import yhat
+    from .C04 import default_regressor, yhat
+
+    default_regressor(ctx, "R-YHAT")
 
     yhat(ctx, N)
 
